@@ -5,6 +5,10 @@
 use super::*;
 use crate::verif_harness::support::*;
 
+#[cfg(not(kani))]
+#[path = "/verif/harness/hist_log.rs"]
+pub mod hist_log;
+
 /// a LogInnerManager value whose in-memory index state is given; the file handles are real
 /// (simfs under Kani, a temp file natively) but never touched by the functions under test
 fn manager_with(indexs: Vec<InnerIdxDto>, start_index: u64, interval: u16, index_cursor: u64, msg_count: u64) -> LogInnerManager {
